@@ -239,6 +239,7 @@ type verifResult struct {
 	Events []verifEvent
 	Panic  string // non-empty: the call panicked; value + top otr3 frame
 	Key    []byte
+	Alias  [][]byte `verif:"nohash"` // the slices exactly as the API returned them (C20 re-reads them later)
 }
 
 func verifPanicSite() string {
@@ -273,6 +274,7 @@ func (p *verifPrincipal) call(f func() ([]byte, []ValidMessage, error)) (res ver
 	}
 	for _, m := range out {
 		res.Out = append(res.Out, append([]byte{}, m...))
+		res.Alias = append(res.Alias, m)
 	}
 	if err != nil {
 		res.Err = err.Error()
